@@ -34,6 +34,8 @@ type ReqSpec struct {
 	//         never (never reads; ends the context late)
 	//         early (ends the context right after SendWithReplies returned, before any reply; ReadAfter: then drains)
 	//         reply / replyearly (SendWithReply; replyearly: the parent context is cancelled while it waits)
+	//         inner (not started by a caller of its own: the handler of the preceding request, outcome "nest", issues it with
+	//         SendWithReply while it handles its command – a request inside a request; needs Scenario.TwoHandlers)
 	//         sendfail / replysendfail (SendWithReplies / SendWithReply whose command bus fails: an error is returned after the
 	//         listener was started; replysendfail: the caller's own context ends late)
 	Caller    string   `json:"c"`
@@ -61,7 +63,7 @@ type ParkSpec struct {
 
 type Scenario struct {
 	AckErrs   bool      `json:"a"`
-	TimeoutMs int       `json:"t"` // 0: no ListenForReplyTimeout
+	TimeoutMs int       `json:"t"` // 0: no ListenForReplyTimeout; -1: a configured time-out of zero; -2: a configured negative time-out (both have passed at once)
 	Shared    bool      `json:"s"` // one reply topic for all requests (else one per operation id)
 	Yield     int       `json:"y"`
 	Seed      uint64    `json:"x"`
@@ -97,7 +99,7 @@ func (sc Scenario) Describe() string { b, _ := json.Marshal(sc); return string(b
 // acks reports whether a handler outcome ends the redelivery chain (the command is acked).
 func acks(outcome string, ackErrs bool) bool {
 	switch outcome {
-	case "ok", "bad", "slow", "ctxok":
+	case "ok", "bad", "slow", "ctxok", "nest":
 		return true
 	case "err", "ctxerr":
 		return ackErrs
@@ -383,6 +385,7 @@ func replyFields(rs *runState, r requestreply.Reply[Res]) []string {
 
 // Run executes one scenario against the real request-reply code over a real GoChannel and a real Router.
 func Run(sc Scenario) *Result {
+	sc.Normalise() // idempotent; hand-written (corpus) scenarios get the same script rules as generated ones
 	n := len(sc.Reqs)
 	rec := gc.NewRec(sc.Seed, sc.Yield)
 	rs := &runState{sc: sc, rec: rec, opOf: map[int]string{}, idx: map[string]int{}, invs: map[*message.Message]int{}, fail: map[*message.Message]bool{}, firstAtt: map[*message.Message]bool{}}
@@ -441,8 +444,14 @@ func Run(sc Scenario) *Result {
 	}
 
 	var timeout *time.Duration
-	if sc.TimeoutMs > 0 {
+	if sc.TimeoutMs != 0 {
 		d := time.Duration(sc.TimeoutMs) * time.Millisecond
+		switch sc.TimeoutMs {
+		case -1:
+			d = 0
+		case -2:
+			d = -5 * time.Millisecond
+		}
 		timeout = &d
 	}
 	var modify func(*message.Message, requestreply.PubSubBackendOnCommandProcessedParams) error // set below, before anything runs
@@ -517,6 +526,19 @@ func Run(sc Scenario) *Result {
 	bus, _ := cqrs.NewCommandBusWithConfig(pubSub, cqrs.CommandBusConfig{
 		GeneratePublishTopic: func(p cqrs.CommandBusGeneratePublishTopicParams) (string, error) {
 			return "commands_" + p.CommandName, nil
+		},
+		// header propagation: a command sent while another message is being handled inherits that message's metadata
+		// (correlation ids, tenant, tracing … – everything but the marshaler's own name key); the operation id that
+		// SendWithReplies stamps afterwards must have the last word
+		OnSend: func(p cqrs.CommandBusOnSendParams) error {
+			if parent := cqrs.OriginalMessageFromCtx(p.Message.Context()); parent != nil {
+				for k, v := range parent.Metadata {
+					if k != "name" {
+						p.Message.Metadata.Set(k, v)
+					}
+				}
+			}
+			return nil
 		},
 		Marshaler:            marshaler, Logger: logger,
 	})
@@ -620,6 +642,23 @@ func Run(sc Scenario) *Result {
 			}
 			rec.Log("hr", ks, is, "r", wh.HexS(v), "-")
 			return Res{V: v}, nil
+		case "nest":
+			// a request inside a request: while handling this command the handler asks the other handler something
+			if j := i + 1; att == 0 && j < n && sc.Reqs[j].Caller == "inner" {
+				js := strconv.Itoa(j)
+				rec.Log("cy", js)
+				ictx, icancel := context.WithTimeout(ctx, liveness/2)
+				r, err := requestreply.SendWithReply[Res](ictx, bus, backend, cmdFor(sc, j))
+				icancel()
+				if err != nil {
+					rec.Log("sr", js, "err")
+				} else {
+					rec.Log("sr", js, "ok")
+					rec.Log("rv", append([]string{js}, replyFields(rs, r)...)...)
+				}
+			}
+			rec.Log("hr", ks, is, "r", wh.HexS(v), "-")
+			return Res{V: v}, nil
 		case "ctxok", "ctxerr":
 			// works until the message's context ends (Router time-out middleware), then reports what it has
 			select {
@@ -711,6 +750,12 @@ func Run(sc Scenario) *Result {
 			markSent := func() { sentOnce.Do(func() { close(sent[i]) }) }
 			defer markSent()
 			var endOnce sync.Once
+			if spec.Caller == "inner" {
+				// issued by the handler of request i-1, not from here
+				markSent()
+				close(ended[i])
+				return
+			}
 			if spec.Caller == "reply" || spec.Caller == "replyearly" || spec.Caller == "replysendfail" {
 				rec.Log("cy", is) // the context of this request ends at some point inside SendWithReply (deferred cancel)
 				if spec.Caller == "replyearly" {
@@ -859,7 +904,7 @@ func Run(sc Scenario) *Result {
 			}
 			expected := 0
 			for _, o := range spec.Outcomes {
-				if o == "ok" || o == "err" || o == "bad" || o == "ctxok" || o == "ctxerr" {
+				if o == "ok" || o == "err" || o == "bad" || o == "ctxok" || o == "ctxerr" || o == "nest" {
 					expected++
 				}
 			}
@@ -1102,7 +1147,7 @@ func b01(b bool) string {
 // TopTrace: `top <spec> <ackErrs> <hasTimeout> <n> <event>*` – the whole scenario for the property monitor.
 func (r *Result) TopTrace() string {
 	var b strings.Builder
-	fmt.Fprintf(&b, "top %s %s %s %d", r.Sc.Token(), b01(r.Sc.AckErrs), b01(r.Sc.TimeoutMs > 0), len(r.Sc.Reqs))
+	fmt.Fprintf(&b, "top %s %s %s %d", r.Sc.Token(), b01(r.Sc.AckErrs), b01(r.Sc.TimeoutMs != 0), len(r.Sc.Reqs))
 	if r.Sc.NoHook {
 		b.WriteString(" nh")
 	}
@@ -1201,7 +1246,7 @@ func (r *Result) ListenerStreams() []string {
 		if t == "" {
 			t = "-"
 		}
-		out = append(out, fmt.Sprintf("lst %s %d %s %s", r.Sc.Token(), i, b01(r.Sc.TimeoutMs > 0 || r.Sc.Reqs[i].DeadlineMs > 0), t))
+		out = append(out, fmt.Sprintf("lst %s %d %s %s", r.Sc.Token(), i, b01(r.Sc.TimeoutMs != 0 || r.Sc.Reqs[i].DeadlineMs > 0), t))
 	}
 	return out
 }
@@ -1217,7 +1262,10 @@ func Emit(out *wh.Out, res *Result) {
 	out.Case(res.TopTrace(), "ok")
 	sc := res.Sc
 	out.Count("scenarios")
-	out.Count(fmt.Sprintf("cfg.ackErrs%v.shared%v.timeout%s", sc.AckErrs, sc.Shared, map[bool]string{true: "small", false: "none-or-large"}[sc.TimeoutMs > 0 && sc.TimeoutMs < 1000]))
+	out.Count(fmt.Sprintf("cfg.ackErrs%v.shared%v.timeout%s", sc.AckErrs, sc.Shared, map[bool]string{true: "small", false: "none-or-large"}[sc.TimeoutMs != 0 && sc.TimeoutMs < 1000]))
+	if sc.TimeoutMs < 0 {
+		out.Count("cfg.timeout-zero-or-negative")
+	}
 	nb := "1"
 	switch {
 	case len(sc.Reqs) >= 32:
